@@ -343,6 +343,102 @@ def interrupt_sweep(res: Result) -> int:
     return n
 
 
+# ------------------------------------------------------------------------------------------------------
+# two callers of the same awaited client operation, one of them gives up
+# ------------------------------------------------------------------------------------------------------
+ADDR_BT = 0x112233445566
+
+
+def _shared_methods(pb: Any) -> list[tuple[str, Any, Any]]:
+    """(name, call(client) -> awaitable, answers() -> device messages completing ONE such request)."""
+    return [
+        ("device_info", lambda c: c.device_info(), lambda: [pb.DeviceInfoResponse(name="dev", mac_address="AA:BB")]),
+        ("list_entities_services", lambda c: c.list_entities_services(),
+         lambda: [pb.ListEntitiesSensorResponse(key=1, object_id="s", name="S"), pb.ListEntitiesDoneResponse()]),
+        ("bluetooth_gatt_get_services", lambda c: c.bluetooth_gatt_get_services(ADDR_BT),
+         lambda: [pb.BluetoothGATTGetServicesResponse(address=ADDR_BT), pb.BluetoothGATTGetServicesDoneResponse(address=ADDR_BT)]),
+        ("bluetooth_gatt_read", lambda c: c.bluetooth_gatt_read(ADDR_BT, 5, timeout=10.0),
+         lambda: [pb.BluetoothGATTReadResponse(address=ADDR_BT, handle=5, data=b"xy")]),
+        ("bluetooth_device_pair", lambda c: c.bluetooth_device_pair(ADDR_BT, timeout=10.0),
+         lambda: [pb.BluetoothDevicePairingResponse(address=ADDR_BT, paired=True)]),
+        ("get_voice_assistant_configuration", lambda c: c.get_voice_assistant_configuration(10.0),
+         lambda: [pb.VoiceAssistantConfigurationResponse(max_active_wake_words=1)]),
+    ]
+
+
+def shared_call_sweep(res: Result, only: str | None = None) -> int:
+    """Two parts of an application await the same client operation at the same time and one of them gives up (is cancelled) - before
+    the device answers, in the loop turn in which the answer arrives, or between the parts of a multi-part answer.  The other caller
+    asked for no cancellation: it ends exactly as it does when it is alone (differential), with its result.  The device answers every
+    request it actually received."""
+    from aioesphomeapi.core import APIConnectionError as _ACE
+
+    from ..world import ConnWorld
+
+    pb = env.pb()
+    n = 0
+    for noise in (False, True):
+        for mname, call, answers in _shared_methods(pb):
+            for when in ("alone", "before-answer", "same-turn-as-answer", "between-parts", "victim-first:before-answer", "victim-first:same-turn-as-answer"):
+                key = f"shared-call:{'noise' if noise else 'plain'}:{mname}:{when}"
+                if only is not None and key != only and when != "alone":
+                    continue
+                w = ConnWorld(client=True, noise=noise, keepalive=1e6, login=True)
+                try:
+                    if noise:
+                        w.connect_fully_split()
+                    else:
+                        w.connect_fully()
+                    cl = w.client
+                    n0 = len(w.sent_frames())
+                    victim_first = when.startswith("victim-first:")
+                    phase = when.split(":")[-1]
+                    order = ["quitter", "stayer"] if not victim_first else ["stayer", "quitter"]
+                    if when == "alone":
+                        order = ["stayer"]
+                    for nm in order:
+                        w.spawn(nm, lambda c=call: c(cl))
+                    w.drain()
+                    n_req = len(w.sent_frames()) - n0  # requests the device actually received
+                    parts = answers()
+                    if phase == "before-answer":
+                        w.cancel("quitter")
+                        w.drain()
+                    for r in range(max(1, n_req)):
+                        for i, m in enumerate(parts):
+                            w.io_chunk(w.sock, w.dframe(m))
+                            if r == 0 and ((phase == "same-turn-as-answer" and i == len(parts) - 1) or (phase == "between-parts" and i == 0 and len(parts) > 1)):
+                                w.step()
+                                if w.pending("quitter"):
+                                    w.cancel("quitter")
+                            w.drain()
+                    w.drain()
+                    if w.pending("stayer"):
+                        w.run_timers(w.loop.time() + 120.0)
+                    n += 1
+                    r_ = w.results.get("stayer")
+                    shape = None if r_ is None else (r_[0], type(r_[1]).__name__, repr(r_[1])[:200] if r_[0] == "ok" else str(r_[1])[:120])
+                    if when == "alone":
+                        base = shape
+                        if shape is None or shape[0] != "ok":
+                            raise HarnessError(f"{key}: the undisturbed call did not succeed: {shape}")
+                        continue
+                    d = {"harness": "c09-shared", "noise": noise, "method": mname, "when": when}
+                    if r_ is None:
+                        res.add(key, f"C09:hang:{mname}: the caller that did not give up never got its answer (the other caller was cancelled {when})", d)
+                    elif r_[0] == "cancelled":
+                        res.add(key, f"C09:foreign-cancellation:{mname}: a cancellation the caller did not request reached it (the other caller was cancelled {when})", d)
+                    elif r_[0] == "exc" and not isinstance(r_[1], _ACE):
+                        res.add(key, f"C09:unclassified:{mname}: raised {type(r_[1]).__name__}: {str(r_[1])[:90]} (the other caller was cancelled {when})", d)
+                    elif shape != base:
+                        res.add(key, f"C09:disturbed:{mname}: ended {shape}, alone it ends {base} (the other caller was cancelled {when})", d)
+                    elif getattr(getattr(cl, "_connection", None), "is_connected", False) is not True:
+                        res.add(key, f"C09:disturbed:{mname}: the session is gone afterwards", d)
+                finally:
+                    w.close()
+    return n
+
+
 def benign_sweep(res: Result, only: str | None = None) -> int:
     """No fault at all: a well-behaved device answers while user listeners call back into the library from inside the dispatch
     (unsubscribe themselves, unsubscribe each other, start a new request).  Every awaited request then ends with its result and the
@@ -538,6 +634,7 @@ def run(tier: str, seed: int) -> Result:
     diff = diff_sweep(res)
     diff["interrupt_sweep_runs"] = interrupt_sweep(res)
     diff["benign_reentrancy_runs"] = benign_sweep(res)
+    diff["shared_call_runs"] = shared_call_sweep(res)
     total = Stats()
     cfgs: list[Any] = []
     q = tier == "quick"
@@ -618,6 +715,11 @@ def _replay_interrupt(rp: dict[str, Any]) -> bool:
 def replay(rp: dict[str, Any]) -> bool:
     if str(rp.get("key", "")).startswith("interrupt:"):
         return _replay_interrupt(rp)
+    if str(rp.get("key", "")).startswith("shared-call:"):
+        res = Result("C09", "fault_enumeration")
+        shared_call_sweep(res, only=rp["key"])
+        print(rp["key"], "->", [v.clause for v in res.violations] or "holds")
+        return not res.violations
     if str(rp.get("key", "")).startswith("benign:"):
         res = Result("C09", "fault_enumeration")
         benign_sweep(res, only=rp["key"])
